@@ -267,3 +267,16 @@ func ObjName(f *types.Func) string {
 	s = strings.ReplaceAll(s, ModulePath+"/", "")
 	return s
 }
+
+// PkgOf returns the loaded package that declares obj, nil if it is not one of the loaded library packages.
+func (p *Program) PkgOf(obj types.Object) *packages.Package {
+	if obj == nil || obj.Pkg() == nil {
+		return nil
+	}
+	for _, pkg := range p.Pkgs {
+		if pkg.Types == obj.Pkg() {
+			return pkg
+		}
+	}
+	return nil
+}
